@@ -302,20 +302,25 @@ Fixpoint compile_roots (fuel : nat) (e : env) (u : repo_stack) (o : copts) (g : 
 (* ---- perform_compile ---- *)
 Definition is_pinned_req (r : req) : bool := has_equality r.
 
+(* pinned_requirements[key] = merge_requirements(pinned_requirements.get(key), req) *)
+Fixpoint add_pins (rs : list req) (pins : list (string * req)) : res (list (string * req)) :=
+  match rs with
+  | [] => Rok pins
+  | r :: rs' =>
+      let k := norm (safe_name (rname r)) in
+      m <- lift_merge (merge (slookup k pins) (Some r)) ;;
+      add_pins rs' (if existsb (fun p => String.eqb (fst p) k) pins
+                    then map (fun p => if String.eqb (fst p) k then (k, m) else p) pins
+                    else pins ++ [(k, m)])
+  end.
+
 Fixpoint collect_pins (cons : list dist) (all_pinned : bool) (pins : list (string * req))
-  : bool * list (string * req) :=
+  : res (bool * list (string * req)) :=
   match cons with
-  | [] => (all_pinned, pins)
+  | [] => Rok (all_pinned, pins)
   | c :: cons' =>
       let ap := all_pinned && forallb is_pinned_req (dreqs c) in
-      let pins' := if ap then
-                     fold_left (fun acc r =>
-                                  let k := norm (safe_name (rname r)) in
-                                  (* dict assignment: replace in place or append *)
-                                  if existsb (fun p => String.eqb (fst p) k) acc
-                                  then map (fun p => if String.eqb (fst p) k then (k, r) else p) acc
-                                  else acc ++ [(k, r)]) (dreqs c) pins
-                   else pins in
+      pins' <- (if ap then add_pins (dreqs c) pins else Rok pins) ;;
       collect_pins cons' ap pins'
   end.
 
@@ -335,8 +340,9 @@ Inductive cres :=
 Definition perform_compile_stack (fuel : nat) (e : env) (u : repo_stack) (inputs : list dist)
            (constraints : option (list dist)) (remove_constraints : bool)
            (maxdg : option nat) : cres :=
-  let '(all_pinned, pins) :=
-    match constraints with Some cs => collect_pins cs true [] | None => (true, []) end in
+  match (match constraints with Some cs => collect_pins cs true [] | None => Rok (true, []) end) with
+  | Rer er => CFatal er
+  | Rok (all_pinned, pins) =>
   match (match constraints with
          | Some cs => if all_pinned then Rok (empty_graph, []) else add_containers e empty_graph cs []
          | None => Rok (empty_graph, []) end) with
@@ -369,6 +375,7 @@ Definition perform_compile_stack (fuel : nat) (e : env) (u : repo_stack) (inputs
       | SFatal er => CFatal er
       end
     end
+  end
   end.
 
 (* one repository *)
